@@ -23,6 +23,7 @@ import (
 	"os"
 	"os/exec"
 	"path/filepath"
+	"regexp"
 	"sort"
 	"strconv"
 	"strings"
@@ -355,6 +356,8 @@ func tail(s string, n int) string {
 	return s
 }
 
+var simprocRe = regexp.MustCompile(`"simproc":\s*"([^"]+)"`)
+
 // crashViolation attributes an uncontained Go panic of the worker. With
 // GODEBUG=tracebacklabels=1 the panicking goroutine's header carries the
 // simulated process; only a panic on a host goroutine is a violation.
@@ -379,11 +382,8 @@ func crashViolation(out string) *Violation {
 		}
 	}
 	proc := ""
-	if j := strings.Index(hdr, `"simproc":"`); j >= 0 {
-		rest := hdr[j+len(`"simproc":"`):]
-		if e := strings.Index(rest, `"`); e >= 0 {
-			proc = rest[:e]
-		}
+	if m := simprocRe.FindStringSubmatch(hdr); m != nil {
+		proc = m[1]
 	}
 	if proc != "" && proc != "host" {
 		return nil // a plugin-side panic that escaped the trap: infrastructure, not a verdict
